@@ -293,6 +293,17 @@ def decide_table_failure(spec, known, report, rec, root):
             f = (sr.get("failures") or [None])[0]
         except Exception:      # noqa
             f = None
+    if not f and rec.get("rt_search"):
+        # a run-time helper that can exhibit the broken fact on the real code: (module, job, replay kind)
+        for mod, job, rkind in rec["rt_search"]:
+            try:
+                sr = driver.rt_call(mod, dict(job, root=root, limit=1), root, timeout=3000)
+                f = (sr.get("failures") or [None])[0]
+            except Exception:      # noqa
+                f = None
+            if f:
+                payload["kind"] = rkind
+                break
     if f:
         payload["failure"] = f
     path = write_replay(pid, rec["name"], payload)
